@@ -46,6 +46,8 @@ impl OperationControl for Atom {
         if case_blind {
             // create a character class that has all case variants of the first character
             let cm = CaseMapCloser::new();
+            // the closure does not contain the character itself
+            builder.add_char(self.atom[0]);
             cm.add_case_closure_to(self.atom[0], &mut builder);
         } else {
             builder.add_char(self.atom[0]);
